@@ -689,10 +689,11 @@ class InterpolatableFunction(ABC):
         # what to append to lower end
         if newMin < self._rangeMin and pointsMin > 0:
 
-            ## Point spacing to use at new lower end
-            spacing = np.abs(self._rangeMin - newMin) / pointsMin
-            # arange stops one spacing before the max value, which is what we want
-            appendPointsMin = np.arange(newMin, self._rangeMin, spacing)
+            ## pointsMin equally spaced points, stopping one spacing before the old
+            ## lower end. linspace fixes the count; arange can add a point at the old end
+            appendPointsMin = np.linspace(
+                newMin, self._rangeMin, int(pointsMin), endpoint=False
+            )
         else:
             appendPointsMin = np.array([])
 
